@@ -199,6 +199,8 @@ class Names:
         "enum.lowercase_value": ["red", "camelCase", "snake_case"],
     }
 
+    STR_METHOD_VALUES = ["count", "title", "index", "lower", "upper", "format", "strip", "encode", "join", "split", "find", "replace"]
+
     def enum_value(self) -> str:
         for cls_name, pool in self.ENUM_DIRTY.items():
             if cls_name in self.dirty and self.rng.random() < 0.4:
@@ -206,6 +208,12 @@ class Names:
                 if free:
                     self.feats.add(cls_name)
                     return self._uniq(self.rng.choice(free))
+        if self.rng.random() < 0.12:
+            # legal value names that are also attributes of str (the generated enums subclass str): members must win over the inherited methods
+            free = [p for p in self.STR_METHOD_VALUES if p not in self.used]
+            if free:
+                self.feats.add("enum.str_method_value")
+                return self._uniq(self.rng.choice(free))
         self.n += 1
         a = self.rng.choice(WORDS).upper()
         style = self.rng.randrange(4)
